@@ -95,7 +95,76 @@ func startWith(path string, sc *plugin.SecureConfig) (*plugin.Client, error) {
 	return cl, err
 }
 
+// gatedHash parks the first caller of Sum until released (to overlap two checks on one shared SecureConfig)
+type gatedHash struct {
+	hash.Hash
+	n       atomic.Int32
+	parked  chan struct{}
+	release chan struct{}
+}
+
+func (g *gatedHash) Sum(b []byte) []byte {
+	if g.n.Add(1) == 1 {
+		close(g.parked)
+		<-g.release
+	}
+	return g.Hash.Sum(b)
+}
+
+// runSharedOverlapCase: two clients with different command files share one SecureConfig (configured with the
+// checksum of the genuine file) and their checks overlap: the tampered file's check has read its file and waits
+// in Sum while the genuine file's check runs from start to end. The tampered file must not be launched.
+func runSharedOverlapCase(c ckCase, dir string) map[string]interface{} {
+	out := map[string]interface{}{"class_effective": "other", "other_launched": false}
+	good := filepath.Join(dir, c.Name+".good.sh")
+	bad := filepath.Join(dir, c.Name+".bad.sh")
+	goodMarker := filepath.Join(dir, c.Name+".good.marker")
+	badMarker := filepath.Join(dir, c.Name+".marker")
+	body := scriptBody(goodMarker, c.FileSeed, c.FileSize)
+	os.WriteFile(good, body, 0o755)
+	os.WriteFile(bad, scriptBody(badMarker, c.FileSeed+1, c.FileSize), 0o755)
+	h := newHash(c.Hash)
+	h.Write(body)
+	gh := &gatedHash{Hash: newHash(c.Hash), parked: make(chan struct{}), release: make(chan struct{})}
+	sc := &plugin.SecureConfig{Checksum: h.Sum(nil), Hash: gh}
+	type res struct {
+		cl  *plugin.Client
+		err error
+	}
+	badDone := make(chan res, 1)
+	go func() {
+		cl, err := startWith(bad, sc)
+		badDone <- res{cl, err}
+	}()
+	select {
+	case <-gh.parked:
+	case <-time.After(3 * time.Second):
+	}
+	gcl, _ := startWith(good, sc)
+	close(gh.release)
+	r := <-badDone
+	rs := classifyErr(r.err)
+	if len(rs) > 6 && rs[:6] == "other:" {
+		out["late_err"] = rs
+		rs = "launch"
+	}
+	out["result"] = rs
+	time.Sleep(200 * time.Millisecond)
+	_, merr := os.Stat(badMarker)
+	out["launched"] = merr == nil
+	out["launched_late"] = merr == nil
+	r.cl.Kill()
+	gcl.Kill()
+	for _, f := range []string{good, bad, goodMarker, badMarker} {
+		os.Remove(f)
+	}
+	return out
+}
+
 func runChecksumCase(c ckCase, dir string) map[string]interface{} {
+	if c.History == "shared-overlap" {
+		return runSharedOverlapCase(c, dir)
+	}
 	out := map[string]interface{}{"other_launched": false}
 	path := filepath.Join(dir, c.Name+".sh")
 	marker := filepath.Join(dir, c.Name+".marker")
